@@ -47,6 +47,7 @@ func main() {
 		runFree(*seed, filepath.Join(*dir, "free"), *runs, res)
 	case "race":
 		runRepro(*seed, filepath.Join(*dir, "repro"), res)
+		runExportRepro(*seed, filepath.Join(*dir, "repro"), res)
 		runRace(*seed, filepath.Join(*dir, "race"), *runs, res)
 	default:
 		vh.Fatalf("unknown mode %q", *mode)
